@@ -210,8 +210,26 @@ def run_case(case, rng):
                 other = Bd.build_pomdp(GP.random_pomdp(rng), explicit=False)
                 case.call("FSCBoundedPolicyIteration.train_on(other problem first)", learner.train_on, other, facts=facts)
                 case.count("learners_reused")
-            with wrap(bpi_mod, "stochastic_fsc_policy_evaluation_exact", after=after) as w:
-                res = case.call("FSCBoundedPolicyIteration.train_on", learner.train_on, pomdp, facts=facts)
+            # probe on the LP solver the improvement step calls: the last solution it returned (for the facts of an exception)
+            import scipy.optimize as _so
+            lp_last = {}
+
+            def after_lp(args, kwargs, out, exc):
+                if exc is None and getattr(out, "x", None) is not None:
+                    x_ = np.asarray(out.x, dtype=float)
+                    pos_ = x_[:-1][x_[:-1] > 0]
+                    lp_last.update(last_lp_epsilon=float(x_[-1]), last_lp_smallest_positive_weight=float(pos_.min()) if pos_.size else 0.0)
+                case.count("bpi_lp_solutions_observed")
+
+            def bpi_facts():
+                f_ = dict(facts)
+                f_.update(lp_last)
+                e_, w_ = lp_last.get("last_lp_epsilon", 1.0), lp_last.get("last_lp_smallest_positive_weight", 1.0)
+                # HiGHS' feasibility / optimality tolerance is 1e-7; numpy.isclose's absolute tolerance (the library's zero test) 1e-8
+                f_["last_lp_solution_at_solver_noise_level"] = bool(1e-8 < abs(e_) < 1e-6 or 1e-8 < w_ < 1e-6)
+                return f_
+            with wrap(bpi_mod, "stochastic_fsc_policy_evaluation_exact", after=after) as w, wrap(_so, "linprog", after=after_lp):
+                res = case.call("FSCBoundedPolicyIteration.train_on", learner.train_on, pomdp, facts=bpi_facts)
             case.count("bpi_runs")
             case.count("bpi_value_tables_recorded", len(tables))
             case.sig("bpi", len(S), len(A), len(OL), nn, gamma, live_abs, iters, seed % 1000)
